@@ -70,15 +70,48 @@ func (q PathQuery) reach(from ssa.Instruction, visit func(ssa.Instruction) bool)
 		depth  int
 	}
 	type pt struct {
-		b   *ssa.BasicBlock
-		i   int
-		fr  *frame
-		cor *correlation
+		b      *ssa.BasicBlock
+		i      int
+		fr     *frame
+		cor    *correlation
+		forced int // 1+index of the only successor that can be taken out of b on this path (0: any)
 	}
 	type key struct {
-		b   *ssa.BasicBlock
-		fr  *frame
-		cor *correlation
+		b      *ssa.BasicBlock
+		fr     *frame
+		cor    *correlation
+		forced int
+	}
+	// a flag set on the way into a block decides the block's own test: entering s from b, if s ends in `if φ` with φ a
+	// phi of s whose operand for b is a boolean constant, only the matching successor can follow (`unmet = true; break`
+	// … `if unmet { continue }`)
+	forcedBy := func(b, s *ssa.BasicBlock) int {
+		if len(s.Instrs) == 0 {
+			return 0
+		}
+		ifi, ok := s.Instrs[len(s.Instrs)-1].(*ssa.If)
+		if !ok {
+			return 0
+		}
+		c, neg := StripNot(ifi.Cond)
+		ph, ok := c.(*ssa.Phi)
+		if !ok || ph.Block() != s {
+			return 0
+		}
+		for i, pred := range s.Preds {
+			if pred != b || i >= len(ph.Edges) {
+				continue
+			}
+			k, ok := ph.Edges[i].(*ssa.Const)
+			if !ok || k.Value == nil || k.Value.Kind() != constant.Bool {
+				return 0
+			}
+			if constant.BoolVal(k.Value) != neg {
+				return 1
+			}
+			return 2
+		}
+		return 0
 	}
 	cors := map[[2]interface{}]*correlation{}
 	corFor := func(c *ssa.Call, ret *ssa.Return) *correlation {
@@ -124,10 +157,10 @@ func (q PathQuery) reach(from ssa.Instruction, visit func(ssa.Instruction) bool)
 		if len(q.Fn.Blocks) == 0 {
 			return false
 		}
-		stack = append(stack, pt{q.Fn.Blocks[0], 0, nil, nil})
-		seenBlockStart[key{q.Fn.Blocks[0], nil, nil}] = true
+		stack = append(stack, pt{q.Fn.Blocks[0], 0, nil, nil, 0})
+		seenBlockStart[key{q.Fn.Blocks[0], nil, nil, 0}] = true
 	} else {
-		stack = append(stack, pt{from.Block(), instrIndex(from) + 1, nil, nil})
+		stack = append(stack, pt{from.Block(), instrIndex(from) + 1, nil, nil, 0})
 	}
 	for len(stack) > 0 {
 		p := stack[len(stack)-1]
@@ -144,7 +177,7 @@ func (q PathQuery) reach(from ssa.Instruction, visit func(ssa.Instruction) bool)
 				if nc := corFor(c, ret); nc != nil {
 					cor = nc
 				}
-				stack = append(stack, pt{c.Block(), instrIndex(c) + 1, p.fr.parent, cor})
+				stack = append(stack, pt{c.Block(), instrIndex(c) + 1, p.fr.parent, cor, 0})
 				blocked = true
 				break
 			} else if ret, isRet := in.(*ssa.Return); isRet && depth > 0 && b.Parent() != q.Fn && b.Parent().Parent() == nil {
@@ -154,7 +187,7 @@ func (q PathQuery) reach(from ssa.Instruction, visit func(ssa.Instruction) bool)
 					for _, mb := range m.Blocks {
 						for mi, x := range mb.Instrs {
 							if c, ok := x.(*ssa.Call); ok && StaticFn(c.Common()) == b.Parent() {
-								stack = append(stack, pt{mb, mi + 1, nil, corFor(c, ret)})
+								stack = append(stack, pt{mb, mi + 1, nil, corFor(c, ret), 0})
 							}
 						}
 					}
@@ -176,10 +209,10 @@ func (q PathQuery) reach(from ssa.Instruction, visit func(ssa.Instruction) bool)
 				}
 				if callee := StaticFn(c.Common()); callee != nil && cur < depth && len(callee.Blocks) > 0 && callee.Pkg != nil && callee.Pkg == q.Fn.Pkg && !onStack(p.fr, callee) && (q.Into == nil || q.Into(callee)) {
 					fr := frameFor(p.fr, c)
-					k := key{callee.Blocks[0], fr, p.cor}
+					k := key{callee.Blocks[0], fr, p.cor, 0}
 					if !seenBlockStart[k] {
 						seenBlockStart[k] = true
-						stack = append(stack, pt{callee.Blocks[0], 0, fr, p.cor})
+						stack = append(stack, pt{callee.Blocks[0], 0, fr, p.cor, 0})
 					}
 					blocked = true // the continuation is taken when (and if) the callee returns
 					break
@@ -196,10 +229,14 @@ func (q PathQuery) reach(from ssa.Instruction, visit func(ssa.Instruction) bool)
 			if p.cor != nil && p.cor.cuts(Edge{b, si}) {
 				continue
 			}
-			k := key{s, p.fr, p.cor}
+			if p.forced != 0 && p.i == 0 && si != p.forced-1 {
+				continue
+			}
+			f := forcedBy(b, s)
+			k := key{s, p.fr, p.cor, f}
 			if !seenBlockStart[k] {
 				seenBlockStart[k] = true
-				stack = append(stack, pt{s, 0, p.fr, p.cor})
+				stack = append(stack, pt{s, 0, p.fr, p.cor, f})
 			}
 		}
 	}
